@@ -538,44 +538,81 @@ theorem bundle_not_self_delimiting_counterexample :
   decide +kernel
 
 
-/-! ## known finding C06-K6: `raw_write` never returns on a circular bundle -/
+/-! ## former finding C06-K6 (fixes/C06-bundle-length-wrap.patch): `raw_write` returns on every block
 
-/-- trigger predicate of finding C06-K6: for some `raw_write` block, `rtosc_message_length(msg,-1)`
-    does not terminate -/
-def RawWriteHangs (ops : List Op) : Bool :=
-  ops.any fun
-    | .rawWrite b => rawLen b == .hang
-    | _ => false
+`raw_write` calls `rtosc_message_length(msg, -1)`: the ring it builds has `total = SIZE_MAX`, so
+the guard `advance > total - pos` of `bundle_ring_length` (fix 10ae66e) cannot fire.  Before the
+repair an element size of 0xfffffffc made `pos += 4 + advance` a no-op, and sizes adding up to a
+multiple of 2^32 led `unsigned pos` round in a circle: the call never returned.  The repaired
+code rejects (length 0) an element whose end `pos + 4 + advance` is not an `unsigned` position,
+so `pos` strictly increases; every round reads `msg[pos]`, so the walk has at most `|block|`
+rounds. -/
+
+/-- **rawLen_terminates** — the fuel lemma for the unbounded length walk (the counterpart of
+    C07's `length_terminates` for `len = -1`): on every block shorter than 2^32 bytes the loops of
+    `rtosc_message_length(msg, -1)` (path scan, type-string scan, argument walk, bundle walk)
+    finish within the fuel the model gives them (`|block| + 2` rounds each): `raw_write`'s length
+    computation returns — with a length, or having read behind the block it was handed (`.oob`),
+    never not at all. -/
+theorem rawLen_terminates (b : Bytes) (h : b.length < 4294967296) : rawLen b ≠ .hang :=
+  rawLen_ne_hang b (Or.inl h)
+
+/-- **rawLen_bundle_terminates** — for a block that starts with `#bundle\0` (the former K6
+    domain) there is no size hypothesis at all: whatever the element sizes are, the bundle walk
+    moves strictly forward inside the block and stops. -/
+theorem rawLen_bundle_terminates (b : Bytes) (h : b.take 8 = bundleMagic) : rawLen b ≠ .hang :=
+  rawLen_ne_hang b (Or.inr h)
+
+/-- the length `rtosc_message_length(bundle, -1)` reports is 0 or the position of a zero word
+    it has read inside the block, behind the time tag -/
+theorem rawLen_bundle_inside (b : Bytes) (h : b.take 8 = bundleMagic) (n : Nat)
+    (hn : rawLen b = .ok n) : n = 0 ∨ (16 ≤ n ∧ n < b.length) := by
+  unfold rawLen Osc.messageLengthU at hn
+  rw [magicU_of_take b h] at hn
+  rcases Osc.bundleLoopU_ok_le b _ _ _ hn with h0 | ⟨h1, h2⟩
+  · exact Or.inl h0
+  · exact Or.inr ⟨h2, h1⟩
+
+/-- **raw_write_returns** — every operation of the sequential ThreadLink with the real length
+    functions returns, for *any* payload (message, bundle, arbitrary bytes): the only way not to
+    have a successor state is a `raw_write` whose length walk reads behind the block it was
+    given (the caller's contract: `raw_write` is handed a complete message). -/
+theorem raw_write_returns (s : Seq) (op : Op)
+    (hsz : ∀ b, op = .rawWrite b → b.length < 4294967296 ∨ b.take 8 = bundleMagic) :
+    (∃ s' o, s.stepOsc op = some (s', o)) ∨ ∃ b, op = .rawWrite b ∧ rawLen b = .oob := by
+  cases hs : s.stepOsc op with
+  | some r => exact Or.inl ⟨r.1, r.2, rfl⟩
+  | none =>
+    obtain ⟨b, hb, ho | hh⟩ := stepOsc_none s op hs
+    · exact Or.inr ⟨b, hb, ho⟩
+    · exact absurd hh (rawLen_ne_hang b (hsz b hb))
 
 /-- "#bundle\0", time tag 0, element size 0xfffffffc, `/a ,`, 4 zero bytes behind the block -/
 def k6Bundle : Bytes :=
   [35, 98, 117, 110, 100, 108, 101, 0, 0, 0, 0, 0, 0, 0, 0, 0, 255, 255, 255, 252, 47, 97, 0, 0, 44, 0, 0, 0,
    0, 0, 0, 0]
 
+/-- "#bundle\0", time tag 0, element `/a ,` (size 8), element size 0xfffffff0, `/b ,`, 4 zero
+    bytes: 16 → 28 → 28 + 4 + 0xfffffff0 = 2^32 + 16, the unrepaired walk is back at 16 -/
+def k6Cycle : Bytes :=
+  [35, 98, 117, 110, 100, 108, 101, 0, 0, 0, 0, 0, 0, 0, 0, 0, 0, 0, 0, 8, 47, 97, 0, 0, 44, 0, 0, 0,
+   255, 255, 255, 240, 47, 98, 0, 0, 44, 0, 0, 0, 0, 0, 0, 0]
+
 def k6History : List Op := [.rawWrite k6Bundle, .hasNext, .read]
 
-/-- **C06-K6.** `raw_write` calls `rtosc_message_length(msg, -1)`: the ring it builds has
-    `total = SIZE_MAX`, so the guard `advance > total - pos` of `bundle_ring_length` (fix
-    10ae66e) cannot fire; the element size 0xfffffffc makes `pos += 4 + advance` wrap back to
-    the same `pos` (16): for *every* amount of fuel the loop has not finished — the call never
-    returns.  The sequential model with the real length functions has no successor state
-    (`runOsc = none`); the same block inside a ring view, where `total` is the view's size, is
-    rejected with length 0. -/
-theorem raw_write_bundle_hang_counterexample :
-    RawWriteHangs k6History = true ∧
-    (∀ fuel, Osc.bundleLoopU k6Bundle fuel 16 = .hang) ∧
-    Seq.runOsc (Seq.init 32 2) k6History = none ∧
-    frameOsc k6Bundle = 0 := by
-  refine ⟨by decide +kernel, ?_, by decide +kernel, by decide +kernel⟩
-  intro fuel
-  induction fuel with
-  | zero => rfl
-  | succ f ih =>
-    have h1 : Osc.rd32U k6Bundle 16 = some 4294967292 := by decide +kernel
-    have h2 : Osc.u32 (16 + Osc.u32 (4 + (4294967292 : UInt32).toNat)) = 16 := by decide +kernel
-    simp only [Osc.bundleLoopU, h1]
-    rw [if_pos (by decide), h2]
-    exact ih
+/-- **C06-K6, repaired.**  The two witnesses of the former finding (no progress; a cycle):
+    `rtosc_message_length(msg, -1)` now reports 0, `raw_write` copies nothing into the ring
+    (`ring_write` of 0 bytes), the queue stays empty, and the history runs to its end.  The same
+    blocks inside a ring view, where `total` is the view's size, are rejected with length 0 as
+    before. -/
+theorem raw_write_wrapping_bundle_dropped :
+    rawLen k6Bundle = .ok 0 ∧ rawLen k6Cycle = .ok 0 ∧
+    (Seq.runOsc (Seq.init 32 2) k6History).map (·.2) = some [.unit, .bool false, .msg none] ∧
+    (Seq.runOsc (Seq.init 32 2) k6History).map (·.1.w) = some 0 ∧
+    (Seq.runOsc (Seq.init 48 2) [.rawWrite k6Cycle, .hasNext, .read]).map (·.2)
+      = some [.unit, .bool false, .msg none] ∧
+    frameOsc k6Bundle = 0 ∧ frameOsc k6Cycle = 0 := by
+  decide +kernel
 
 /-! ## non-vacuity: the hypotheses are satisfiable and the conclusions say something -/
 
